@@ -279,6 +279,22 @@ pub fn generate(seed: u64, tier: &str, _property: &str) -> ThreadScenario {
             targets.push(Target::Component { name: c.name.clone(), ctx: comp_probe_ctx(c, false), body: Some("<b>&</b>".into()), autoescape: false });
         }
     }
+    // recursive components called deep (12 levels, legal under the limit of 20): the depth
+    // bookkeeping of concurrent renders must not add up
+    let mut deep_targets: Vec<Target> = Vec::new();
+    for c in &g.world.comps {
+        if c.recursive && c.params.iter().any(|p| p.name == "count") {
+            let mut cx = comp_probe_ctx(c, false);
+            for kv in cx.0.iter_mut() {
+                if kv.0 == "count" {
+                    kv.1 = crate::sval::SVal::I64(12);
+                }
+            }
+            let t = Target::Component { name: c.name.clone(), ctx: cx, body: None, autoescape: true };
+            deep_targets.push(t.clone());
+            targets.push(t);
+        }
+    }
     // one-off sources, each under both escaping modes (overlapping `render_str` calls on one
     // shared engine must not influence each other)
     for _ in 0..rng.range(0, 2) {
@@ -297,7 +313,10 @@ pub fn generate(seed: u64, tier: &str, _property: &str) -> ThreadScenario {
                 2 => WPlan::fail(FaultAt::Byte(rng.below(40)), rng.pick(&ALL_KINDS)),
                 _ => WPlan::perfect(),
             };
-            jobs.push(Job { target: rng.pick(&targets), ctx: rng.below(3), plan });
+            // (when a deep recursive call exists, a third of the jobs are that call, so that
+            // two of them overlap in most schedules)
+            let target = if !deep_targets.is_empty() && rng.chance(1, 3) { rng.pick(&deep_targets) } else { rng.pick(&targets) };
+            jobs.push(Job { target, ctx: rng.below(3), plan });
         }
         readers.push(jobs);
     }
